@@ -191,6 +191,6 @@ def spec_strategy(version):
 def run(ctx):
     for version in (2, 3):
         strat = st.fixed_dictionaries({'spec': spec_strategy(version), 'seed': S.u64, 'all_offsets': st.just(not ctx.quick)})
-        ctx.run_given('cut', strat, prop_cut, ctx.n(10, 7))
+        ctx.run_given('cut', strat, prop_cut, ctx.n(10, 5))
     cstrat = st.fixed_dictionaries({'spec': spec_strategy(2), 'k': st.integers(0, 40)})
     ctx.run_given('count', cstrat, prop_count, ctx.n(60, 200))
